@@ -42,10 +42,11 @@ def gen(rng, i):
         loss = ts.loss_table(rng, n, K, hi if active else 1)
         ctabs.append(ts.saving_from_loss(loss, n))
     ptabs = [ts.saving_from_loss(ts.loss_table(rng, n, K, rng.choice([1, 2, hi + 3])), n) for _ in range(p)]
+    npv = rng.choice([1, 1, 2, 3])                       # parameters per variable of the collective saving (enters the sparse penalty)
     B2 = rng.choice([1, 3, 5, 9, 15])                    # 2 * (sparse per-component penalty) : odd => half-integer penalty
     bp = sorted(rng.randint(0, 4) for _ in range(p))
     return {"n": n, "p": p, "m": m, "M": M, "ctabs": ctabs, "ptabs": ptabs, "ac": rng.choice([0, 1, 3, 6]),
-            "bc": [rng.choice([0, 1, 2])] * p, "ap": rng.choice([2, 6, 12]), "bp": bp, "B2": B2, "pattern": pattern, "wide": wide}
+            "bc": [rng.choice([0, 1, 2])] * p, "ap": rng.choice([2, 6, 12]), "bp": bp, "B2": B2, "pattern": pattern, "wide": wide, "npv": npv}
 
 
 def run(ctx):
@@ -57,10 +58,10 @@ def run(ctx):
         c = gen(rng, i)
         n, p = c["n"], c["p"]
         X = pd.DataFrame(np.zeros((n, p)), columns=[f"c{j}" for j in range(p)])
-        scale = (c["B2"] / 2.0) / (2.0 * math.log(p))
+        scale = (c["B2"] / 2.0) / (2.0 * math.log(c["npv"] * p))      # so that 2 * scale * log(npv * p) = B2 / 2
         inp = {k: c[k] for k in c}
         try:
-            d = MVCAPA(collective_saving=ts.TableSaving(c["ctabs"]), point_saving=ts.TableSaving(c["ptabs"]),
+            d = MVCAPA(collective_saving=ts.TableSaving(c["ctabs"], c["npv"]), point_saving=ts.TableSaving(c["ptabs"]),
                        collective_penalty=pen_callable(c["ac"], c["bc"]), collective_penalty_scale=scale,
                        point_penalty=pen_callable(c["ap"], c["bp"]), min_segment_length=c["m"], max_segment_length=c["M"],
                        ignore_point_anomalies=False).fit(X)
